@@ -7,6 +7,7 @@ import (
 	"math/rand"
 	"os"
 	"runtime"
+	"runtime/debug"
 	"strings"
 	"sync"
 	"time"
@@ -291,7 +292,20 @@ func Main(rep *core.Report, args *core.Args, prop string, stages []Stage) {
 			for i, l := range st.Layouts {
 				lc = append(lc, Config{Layout: l, Pager: sim.PagerOpts{Sector: 512, BigEndian: i%2 == 1}})
 			}
-			replayAll(rep, prop, traces, lc, args.Seed, true, st.Workers)
+			// huge layouts (the lock page is page 16385 of a 64 KiB-page database: every image is 1 GiB):
+			// collect garbage eagerly while they run, the default lets the heap double first
+			big := false
+			for _, l := range st.Layouts {
+				big = big || l.PageSize >= 65536
+			}
+			if big {
+				old := debug.SetGCPercent(20)
+				replayAll(rep, prop, traces, lc, args.Seed, true, st.Workers)
+				debug.SetGCPercent(old)
+				debug.FreeOSMemory()
+			} else {
+				replayAll(rep, prop, traces, lc, args.Seed, true, st.Workers)
+			}
 			stageDone()
 			continue
 		}
